@@ -417,6 +417,41 @@ pub fn first_ref(node: &Node, ctx: (i32, i32)) -> Den {
     }
 }
 
+/// Every reference of the formula in pre-order, as absolute cells.
+pub fn all_refs(node: &Node, ctx: (i32, i32), out: &mut Vec<Den>) {
+    use Node::*;
+    match node {
+        ReferenceKind { .. } | RangeKind { .. } | WrongReferenceKind { .. } | WrongRangeKind { .. } | ErrorKind(Error::REF) => {
+            out.push(first_ref(node, ctx))
+        }
+        OpRangeKind { .. } => out.push(first_ref(node, ctx)),
+        OpConcatenateKind { left, right }
+        | OpSumKind { left, right, .. }
+        | OpProductKind { left, right, .. }
+        | OpPowerKind { left, right }
+        | CompareKind { left, right, .. } => {
+            all_refs(left, ctx, out);
+            all_refs(right, ctx, out);
+        }
+        UnaryKind { right, .. } => all_refs(right, ctx, out),
+        ImplicitIntersection { child, .. } | SpillRangeOperator { child } => all_refs(child, ctx, out),
+        FunctionKind { args, .. } | NamedFunctionKind { args, .. } => {
+            for a in args {
+                all_refs(a, ctx, out);
+            }
+        }
+        LambdaCallKind { lambda, args } => {
+            all_refs(lambda, ctx, out);
+            for a in args {
+                all_refs(a, ctx, out);
+            }
+        }
+        LambdaDefKind { body, .. } => all_refs(body, ctx, out),
+        ParseErrorKind { message, .. } => out.push(Den::Wrong(format!("parse error: {}", message))),
+        _ => {}
+    }
+}
+
 /// A parser set up for `model` (English), reusable for many formulas.
 pub struct Reader<'a> {
     parser: Parser<'a>,
@@ -453,6 +488,25 @@ impl<'a> Reader<'a> {
             Den::Wrong(w) if w.starts_with("parse error") && body.contains("#REF!") => Den::PartialRef,
             d => d,
         }
+    }
+}
+
+impl<'a> Reader<'a> {
+    /// every reference of the formula text at (sheet,row,col), in order
+    pub fn dens(&mut self, text: &str, sheet: u32, row: i32, col: i32) -> Vec<Den> {
+        let ctx = CellReferenceRC {
+            sheet: self.names.get(sheet as usize).cloned().unwrap_or_default(),
+            row,
+            column: col,
+        };
+        let body = text.strip_prefix('=').unwrap_or(text);
+        let node = self.parser.parse(body, &ctx);
+        let mut out = vec![];
+        all_refs(&node, (row, col), &mut out);
+        if out.iter().any(|d| matches!(d, Den::Wrong(w) if w.starts_with("parse error"))) && body.contains("#REF!") {
+            return vec![Den::PartialRef];
+        }
+        out
     }
 }
 
@@ -1710,8 +1764,8 @@ pub fn judge_after(model: &Model, b: &Built, pre: &Pre, op: &SOp, case: &Value, 
                         "{} {} empty-cell-style{}",
                         opk,
                         ax,
-                        if axis == Axis::Cols && (2..=3).contains(&nt) && now == pre.probe[(nt - 1) as usize] {
-                            "(position inside the multi-column descriptor kept its old style)"
+                        if axis == Axis::Cols && (now == pre.probe[1]) != (pre.probe[(t - 1) as usize] == pre.probe[1]) {
+                            "(the style of the multi-column descriptor is involved)"
                         } else {
                             ""
                         }
@@ -1736,11 +1790,12 @@ pub fn judge_after(model: &Model, b: &Built, pre: &Pre, op: &SOp, case: &Value, 
                             opk,
                             ax,
                             attr_diff_class(&pre.attrs[(t - 1) as usize], &now),
-                            if axis == Axis::Cols
-                                && (2..=3).contains(&nt)
-                                && now.split(" style=").nth(1) == pre.attrs[(nt - 1) as usize].split(" style=").nth(1)
-                            {
-                                "(position inside the multi-column descriptor kept its old style)"
+                            if axis == Axis::Cols && {
+                                let st = |x: &str| x.split(" style=").nth(1).map(|y| y.to_string());
+                                let multi = st(&pre.attrs[1]);
+                                (st(&now) == multi) != (st(&pre.attrs[(t - 1) as usize]) == multi)
+                            } {
+                                "(the style of the multi-column descriptor is involved)"
                             } else {
                                 ""
                             }
